@@ -99,6 +99,13 @@ CHECKS["C14"] = dict(
     design_ref="3/C14",
 )
 
+CHECKS["C15"] = dict(
+    technique="Hypothesis joint generation of (combinator term, value in its domain) with a round-trip oracle up to canonical room order and an exact-consumption check with junk appended",
+    text="Terms are drawn over all thirteen combinators: item-level alternatives (HexInt / IntSpaces / MultiDigit, Spaces, Dict) combined in OneOf with pairwise disjoint first-character classes in any order, item streams built from chunks so that runs cross the one-character limit, values sit at 15/16/255/256/4095 and rows end in partial digit groups; composites Tupl, Seq (incl. length 0 and nested), Grid (explicit or environment size, 1xN, Nx1), Rooms and ValuedRooms over random connected partitions with rooms and cells in random order. deserialize_problem(serialize_problem(v)) must equal v up to the canonical ordering of rooms with values still attached to their rooms, and the low-level deserialize must consume exactly the produced characters, also with junk appended. Exploration (sampled).",
+    note="Trusted base: vlib/gen_comb (sound-by-construction value generation; its stated preconditions are listed in the evidence assumptions). 13/13 sensitivity mutants caught; four genuine defects found and fixed (Grid size 0, Grid item index, empty encodings at end of input, ValuedRooms ordering).",
+    design_ref="3/C15",
+)
+
 NOT_BUILT_REASON = "check not built yet in this session (planned in DESIGN.md section 3); not claimed until it runs quietly and is mutation-tested"
 
 def main():
